@@ -54,11 +54,23 @@ contract('bespokeasm.assembler.line_object.preprocessor_line.define_symbol:Defin
 
 # ---- where the substitution happens: the whole text of a non-directive line, before anything of it is parsed ---------------
 contract('bespokeasm.assembler.line_object.factory:LineOjectFactory.parse_line', name='substitute-before-parsing',
-         props=['C09'], blocks_only=True,
+         props=['C09', 'C11'], blocks_only=True,
          params={'cls': 'opaque', 'label_scope': 'LabelScope', 'current_memzone': 'MemoryZone'},
-         locals={'instruction_str': 'str', 'comment_str': 'str', 'line_obj_list': 'list[LineObject]'},
-         blocks={'substitute': dict(
-             where='between:instruction_str = ::while len(instruction_str)', locals={}, requires=[],
+         locals={'instruction_str': 'str', 'comment_str': 'str', 'line_obj_list': 'list[LineObject]',
+                 'instruction_match': 'match?'},
+         # (`^([^;\v]*)(?:;.*)?$`: the one group of the instruction pattern is not optional -- trusted regex fact)
+         regex_facts={'LineOjectFactory.PATTERN_INSTRUCTION_CONTENT': [1]},
+         blocks={'instruction-text': dict(
+             # the text that is assembled is the part of the line before the comment, as written: only the blanks
+             # around it are removed (blanks inside it -- in a quoted string, say -- are content)
+             where="between:instruction_str = ''::line_obj_list", locals={}, props=['C09', 'C11'], requires=[],
+             may_raise={},
+             ensures=['implies(instruction_match is not None,'
+                      ' instruction_str == str_strip(value_of(value_of(instruction_match).group(1))))',
+                      'implies(instruction_match is None, instruction_str == "")'],
+             modifies=[], allocates=True),
+                 'substitute': dict(
+             where='between:instruction_str = ::while len(instruction_str)', locals={}, requires=[], props=['C09'],
              may_raise={'SystemExit': 'True'},
              # what is handed to the label / instruction / directive parsers contains no defined symbol as a whole word
              ensures=['forall(lambda w: implies(w in ' + W.format('instruction_str') + ', not (w in preprocessor._symbols)),'
